@@ -542,9 +542,15 @@ func isNilKey(k any) bool {
 // validKey checks that a key returned by a decoder (possibly different from
 // the original, for containers that carry no redundancy) is a valid key in
 // itself: scalar in range and public part matching the private part.
-func validKey(got any) error {
+func validKey(got any, full bool) error {
 	switch g := got.(type) {
 	case *sm2.PrivateKey:
+		if !full { // scalar range only (the generic-curve scalar multiplication costs ~1 ms)
+			if g.D == nil || g.X == nil || g.Y == nil || g.D.Sign() <= 0 || g.D.Cmp(sm2Nm2) > 0 || !stdSM2.IsOnCurve(g.X, g.Y) {
+				return fmt.Errorf("SM2 key D=%x (%x,%x): scalar outside [1, n-2] or point not on the curve", g.D, g.X, g.Y)
+			}
+			return nil
+		}
 		return sm2Consistent(g)
 	case *ecdsa.PrivateKey:
 		if g.D == nil || g.X == nil || g.Y == nil {
